@@ -1,6 +1,6 @@
 (* C13 - proofs, part 1: normalisation gives a point of the simplex; argmax. *)
 From Coq Require Import List Bool ZArith QArith Qabs Lia Lqa Setoid Morphisms.
-From NV.Generated Require Import MrfTables.
+From NV.Generated Require Import MrfTables GmmFrags.
 From NV.C13 Require Import Model.
 Import ListNotations.
 Open Scope Q_scope.
@@ -118,17 +118,6 @@ Proof.
   lra.
 Qed.
 
-Lemma vmf_resp_simplex (EXP : Q -> Q) lwl :
-  (forall x, 0 < EXP x) -> lwl <> [] -> simplex (vmf_resp EXP lwl).
-Proof.
-  intros HE Hne. unfold vmf_resp. apply normalize_simplex.
-  - unfold nonneg. rewrite Forall_forall. intros y Hy. apply in_map_iff in Hy.
-    destruct Hy as [x [<- _]]. specialize (HE (x - qmean lwl)). lra.
-  - apply qsum_pos_of_all_pos.
-    + destruct lwl; [congruence|discriminate].
-    + rewrite Forall_forall. intros y Hy. apply in_map_iff in Hy. destruct Hy as [x [<- _]]. apply HE.
-Qed.
-
 (* ------------------------------------------------------------------ NEF (max shift) *)
 Lemma lmax_in l : l <> [] -> In (lmax l) l.
 Proof.
@@ -138,6 +127,19 @@ Proof.
   destruct (qmaxb_spec x (lmax (y :: l))) as [[_ ->]|[_ ->]].
   - right. apply IH. discriminate.
   - left. reflexivity.
+Qed.
+
+Lemma lmax_ge l x : In x l -> x <= lmax l.
+Proof.
+  induction l as [|y l IH]; intros Hin; [destruct Hin|].
+  destruct l as [|z l].
+  - destruct Hin as [->|[]]. simpl. lra.
+  - change (lmax (y :: z :: l)) with (qmaxb y (lmax (z :: l))).
+    destruct (qmaxb_spec y (lmax (z :: l))) as [[Hle ->]|[Hlt ->]]; destruct Hin as [->|Hin].
+    + exact Hle.
+    + apply IH. exact Hin.
+    + lra.
+    + specialize (IH Hin). lra.
 Qed.
 
 Lemma qsum_ge_member l x : nonneg l -> In x l -> x <= qsum l.
@@ -163,6 +165,16 @@ Proof.
   pose proof (qsum_ge_member _ _ Hnn Hm) as Hge.
   assert (E : EXP (lmax lef - lmax lef) == 1) by (apply H1; ring).
   lra.
+Qed.
+
+(* vMF responsibilities with the max shift (the shift is read from the source) *)
+Lemma vmf_resp_simplex (EXP : Q -> Q) lwl :
+  (forall x, 0 <= EXP x) -> (forall x, x == 0 -> EXP x == 1) -> lwl <> [] ->
+  simplex (vmf_resp EXP lwl).
+Proof.
+  intros HE H1 Hne. unfold vmf_resp, vmf_shift.
+  change src_vmf_shift with ShiftMax. cbv iota.
+  exact (nef_row_simplex EXP lwl HE H1 Hne).
 Qed.
 
 (* ------------------------------------------------------------------ argmax *)
